@@ -155,6 +155,9 @@ Kind(n, t, kd) ==
     [] kd = "v2"   -> Plain(n, t, 2, 2, 0)
     [] kd = "v1sL" -> LET mb == Plain(n, t, 1, 1, 1) IN [mb EXCEPT !.label = 1, !.v.label = 1]   \* seeded, made and verified in another context
     [] kd = "v1C"  -> LET mb == Plain(n, t, 1, 2, 1) IN [mb EXCEPT !.label = 2, !.v.label = 2]   \* seeded, context = label + caller state
+    [] kd = "v1t"  -> Plain(n, t, 1, 1, 2)                                          \* the other seed, on both sides
+    [] kd = "v1st" -> [Plain(n, t, 1, 1, 2) EXCEPT !.v.seed = 1]                     \* made under seed 2, recovered under seed 1
+    [] kd = "v1ts" -> [Plain(n, t, 1, 1, 1) EXCEPT !.v.seed = 2]                     \* made under seed 1, recovered under seed 2
     [] kd = "dup"  -> [Plain(n, t, 1, 1, 0) EXCEPT !.bseed = 7]       \* every "dup" member is the same triple (same openings, same RNG stream)
     [] kd = "dupL" -> LET mb == [Plain(n, t, 1, 1, 0) EXCEPT !.bseed = 7] IN [mb EXCEPT !.v.label = 1]   \* the same triple, altered context
     [] kd = "dupC" -> LET mb == [Plain(n, t, 1, 1, 0) EXCEPT !.bseed = 7] IN [mb EXCEPT !.v.label = 2]
@@ -212,15 +215,18 @@ FamRecover ==
                     n \in (IF Quick THEN {1, 8, 64} ELSE AllN), t \in (IF Quick THEN {1, 2, 6} ELSE 1..6), cap \in {1, 2}, ps \in {"none", "lt"}, ps_seed \in {0, 1, 2},
                     lb \in {0}, rng \in (IF Quick THEN {"chacha"} ELSE {"chacha", "zero"}), vs \in {0, 1, 2, 3, 4}, mode \in Modes,
                     mu \in {NoMut, [kind |-> "scalar", slot |-> "d1", j |-> 0, how |-> "plus1"], [kind |-> "point", slot |-> "A1", j |-> 0, how |-> "rand"]} }
-      Mix == { Scen([x \in 1..Len(ks) |-> Kind(8, t, ks[x])], mode, NoSkew, FALSE) :
+      Mix == { ScenF([x \in 1..Len(ks) |-> Kind(8, t, ks[x])], mode, NoSkew, FALSE, <<Kind(8, t, "v1")>>) :
                  ks \in UNION { [1..k -> {"v1", "v1s", "v2", "v1sL", "v1C"}] : k \in 2..(IF Quick THEN 3 ELSE 4) }, t \in (IF Quick THEN {1, 6} ELSE {1, 3, 6}), mode \in Modes }
+      \* seeds in every order inside one batch: two seeds, each on the prover's and on the verifier's side, at every position
+      SeedMix == { ScenF([x \in 1..Len(ks) |-> Kind(8, t, ks[x])], mode, NoSkew, FALSE, <<Kind(8, t, "v1")>>) :
+                     ks \in UNION { [1..k -> {"v1s", "v1t", "v1st", "v1ts"}] : k \in 2..(IF Quick THEN 3 ELSE 4) }, t \in {1, 2}, mode \in Modes }
       \* a blinding vector with zero components (all of them, for the one commitment)
       Zb == { One([[Member(n, t, 1, 1, "mid", vs, 1, "none", "none", 1, ps_seed, 0, "chacha") EXCEPT !.v.seed = vs2] EXCEPT !.zb = 1], mode) :
                 n \in {8, 64}, t \in {1, 2, 6}, vs \in {"zero", "mid"}, ps_seed \in {0, 1}, vs2 \in {0, 1, 2}, mode \in Modes }
       \* seeds with special VALUES (classes 5, 6, 7 = the zero scalar, one, the largest canonical scalar): a seed is any scalar
       Special == { One([Member(n, t, 1, 1, "mid", "max", 1, "none", "none", 1, ps_seed, 0, "chacha") EXCEPT !.v.seed = vs], mode) :
                      n \in {8, 64}, t \in {1, 6}, ps_seed \in {5, 6, 7}, vs \in {0, 1, 5, 6, 7}, mode \in Modes }
-  IN {s \in Single : s.members[1].n > 1 \/ s.members[1].mut.kind = "none"} \cup Mix \cup Zb \cup Special
+  IN {s \in Single : s.members[1].n > 1 \/ s.members[1].mut.kind = "none"} \cup Mix \cup SeedMix \cup Zb \cup Special
 
 (***************************************************************************************************)
 (* capacity (C12)                                                                                    *)
